@@ -89,7 +89,14 @@ def main(argv):
             r = sh([PY, "-m", "pytest", "-q", "-p", "no:cacheprovider", "-n", "6", "--timeout=900", "tests", "benchmarks"],
                    env=env, cwd=wt, timeout=3600)
             failed = set(re.findall(r"^(?:FAILED|ERROR) (\S+)", r.stdout, re.M))
-            out["tests_new_failures"] = sorted(failed - KNOWN_FAIL)
+            new = sorted(failed - KNOWN_FAIL)
+            if new:
+                # re-run just those tests on their own: the benchmarks fail under machine load / memory pressure
+                r2 = sh([PY, "-m", "pytest", "-q", "-p", "no:cacheprovider", "--timeout=900"] + new, env=env, cwd=wt, timeout=3600)
+                still = set(re.findall(r"^(?:FAILED|ERROR) (\S+)", r2.stdout, re.M))
+                out["tests_failed_only_under_load"] = sorted(set(new) - still)
+                new = sorted(still)
+            out["tests_new_failures"] = new
             out["tests_summary"] = r.stdout.strip().splitlines()[-1] if r.stdout.strip() else r.stderr[-200:]
         res = {}
         for c in checks:
